@@ -329,7 +329,7 @@ void reb_read_simulationarchive_from_stream_with_messages(struct reb_simulationa
                     sa->t = NULL;
                     free(sa->offset);
                     sa->offset = NULL;
-                    free(sa);
+                    // sa itself is owned (and freed) by the caller.
                     *warnings |= REB_SIMULATION_BINARY_ERROR_SEEK;
                     return;
                 }
@@ -381,7 +381,7 @@ void reb_simulationarchive_init_from_buffer_with_messages(struct reb_simulationa
 }
 
 struct reb_simulationarchive* reb_simulationarchive_create_from_file(const char* filename){
-    struct reb_simulationarchive* sa = malloc(sizeof(struct reb_simulationarchive));
+    struct reb_simulationarchive* sa = calloc(1, sizeof(struct reb_simulationarchive));
     enum reb_simulation_binary_error_codes warnings = REB_SIMULATION_BINARY_WARNING_NONE;
     reb_simulationarchive_create_from_file_with_messages(sa, filename, NULL, &warnings);
     if (warnings & REB_SIMULATION_BINARY_ERROR_NOFILE){
@@ -390,6 +390,11 @@ struct reb_simulationarchive* reb_simulationarchive_create_from_file(const char*
         sa = NULL;
     }else{
         reb_input_process_warnings(NULL, warnings);
+        if (warnings & (REB_SIMULATION_BINARY_ERROR_OLD | REB_SIMULATION_BINARY_ERROR_SEEK)){
+            // No snapshot could be read. Release the handle instead of returning an empty one.
+            reb_simulationarchive_free(sa);
+            sa = NULL;
+        }
     }
     return sa;
 }
